@@ -26,6 +26,8 @@ Attempts to follow the SMTP server RFCs.
 
 from __future__ import absolute_import
 
+from gevent import Timeout
+
 from slimta.envelope import Envelope
 from slimta.smtp.server import Server
 from slimta.smtp.reply import Reply
@@ -278,7 +280,13 @@ class SmtpEdge(EdgeServer):
             pass
         finally:
             if smtp_server:
-                smtp_server.io.close()
+                # Closing a TLS session waits for the peer's close
+                # notification: not for ever.
+                try:
+                    with Timeout(self.command_timeout):
+                        smtp_server.io.close()
+                except Timeout:
+                    smtp_server.io.socket.close()
 
 
 # vim:et:fdm=marker:sts=4:sw=4:ts=4
